@@ -186,4 +186,41 @@ META = {
          "closed), Go's select/scheduler (explored through real concurrency inside the bubble, resolved by relay-count hints).",
  'technique': 'Lean 4 invariant + termination-measure proof over a fine-grained transition system (all interleavings, all ending positions) + '
               'model/implementation correspondence with goroutine-level observation'},
+    "C10": {'text': 'Theorems over a fine-grained transition system of the provider loop (every branch of muxProvider.Start), AddConnection, '
+         'waitAndCleanup/unregisterMux/AllowMoreConns, onClose and the environment, for EVERY pool size, both roles, EVERY action list (all '
+         'interleavings and fault sequences), for the current tree and for the repaired one: conservation (free permits + in-flight attempt + '
+         'slot-holding sessions + permits lost at exit = N) hence never more than N registered and never more than N live yamux sessions; every '
+         'failure branch and every session death returns exactly one permit; progress: every benign continuation from every reachable live state '
+         'terminates (explicit measure) and can only stop with N healthy sessions registered, and one exists. Shutdown: the full clause is FALSE of '
+         'the PINNED tree (Defects.asIs) - three kernel-checked counterexamples (session handed to AddConnection after the lifetime ended; sessionFn error never '
+         'closes the raw conn; provider returns on lifetime end before closing a session whose ping failed) that were reproduced on the real code and '
+         'REPAIRED by a fix: commit (the driver now runs Defects.fixed = the current tree); proved: the clause in full for the current tree '
+         '(C10_shutdown_fixed), for the pinned tree on every run without such an abandoning step (partial), and that every execution after Cancel is finite. Model tied to the real NewMuxProvider + NewCustomMultiMuxManager (fake '
+         'connProvider, real yamux over net.Pipe, one synctest bubble, both roles) and to the real NewMuxReceiverProvider over loopback TCP by '
+         'per-op differential runs.',
+ 'design_ref': 'DESIGN.md §5 C10, §4',
+ 'note': 'Trusted: Lean kernel; axioms propext/Classical.choice/Quot.sound only; the theorem statements; the Go harness (generators, canonicaliser) '
+         'that ties the hand-written model to /repo by differential execution on every run. Partial: the shutdown clause is refuted for the current '
+         'tree; the positive shutdown theorem is for runs without abandoning steps / for the repaired model (the proposed patch was validated '
+         'against the repaired model on a patched copy, see FINDINGS). Modelled not verified: semaphore.Weighted, yamux (Close closes the conn, '
+         "self-shutdown on peer loss, keep-alive), context propagation, the establisher's dial back-off; progress is for benign continuations, not "
+         'arbitrary fair schedules.',
+ 'technique': 'Lean 4 invariant + termination-measure proofs over a fine-grained transition system, kernel-checked counterexamples, '
+              'model/implementation correspondence under testing/synctest with fault injection'},
+    "C11": {'text': 'Theorems for EVERY sequence of session additions, deaths, removals and cancellation (same slot re-used, rapid add/remove, the empty set): '
+         "the client connection's map equals the session table (same keys, same session objects), the resolver's endpoints equal the table's keys, "
+         'the map is nil iff the table is empty, keys are never reused, the dialer opens a stream exactly on the live session currently registered '
+         'under the dialled key and refuses unknown keys, CanMakeCalls <=> lifetime live and table non-empty. Call-level clauses (served only by a '
+         'registered live session, fail-over while one survives, Unavailable when none, resume after an add) are derived from this PLUS an explicit '
+         "hypothesis structure for gRPC's balancer ('a ready endpoint of the current resolver state is picked iff one exists') - the balancer is "
+         'modelled, not verified, and those theorems are named *_partial. Tied to the real MultiClientConn + multiMuxManager + real gRPC/yamux by '
+         'exhaustive (<= 8 updates) and random add/remove/rpc/in-flight histories under testing/synctest.',
+ 'design_ref': 'DESIGN.md §5 C11',
+ 'note': 'Trusted: Lean kernel; axioms propext/Classical.choice/Quot.sound only; the theorem statements; the Go harness (generators, canonicaliser) '
+         "that ties the hand-written model to /repo by differential execution on every run. Partial at call level: gRPC's "
+         'round_robin/resolver/transport behaviour is an assumption (structure Balancer), validated on the real gRPC v1.80.0 by the engine on every '
+         "run, not proved. The resolver's endpoint list is observed indirectly (which sessions the client connection holds transports on), not read "
+         'from gRPC.',
+ 'technique': 'Lean 4 invariant proof (table = map = endpoints, exact dialer) + assumption-parametrised call-level theorems + model/implementation '
+              'correspondence under testing/synctest'},
 }
